@@ -30,6 +30,12 @@ def mk_field(v, name, idx=None):
             return v[1][int(name)]
         except (ValueError, IndexError):
             pass
+    if v[0] == 'closure':
+        # captured variable of a closure / coroutine value built on this path (spliced closures read their captures this way)
+        try:
+            return v[2][int(name)]
+        except (ValueError, IndexError):
+            pass
     if v[0] == 'downcast' and v[1][0] == 'agg' and v[1][2] == v[2]:
         f = v[1][3]
         if name in f:
